@@ -107,6 +107,7 @@ class Scheduler:
         self.threads = {}
         self.order = []                      # tids in spawn order
         self.acted = {}                      # tid -> shared actions performed since the thread was last resumed
+        self.frames = {}                     # tid -> innermost frame of the parked thread (for `signature`)
         self.touched = {}                    # tid -> labels of the shared objects touched since it was last resumed
         self.steps = 0
         self.now = 0.0                       # virtual clock
@@ -155,6 +156,7 @@ class Scheduler:
     def _park(self, st):
         tid = self._local.tid
         self.last = (tid, self.acted[tid], self.touched[tid])
+        self.frames[tid] = sys._getframe(1)
         self.state[tid] = st
         nxt = self._next()
         if nxt != tid:
@@ -298,6 +300,22 @@ class Scheduler:
         self.now = min(ds)
         return True
 
+    def signature(self, tid):
+        """the complete Python-level state of parked thread `tid`: for every frame on its stack the code
+        object, the bytecode offset and the locals (immutable plain values by value, anything else by type
+        name — shared objects must be described separately by the caller)"""
+        st = self.state[tid]
+        if st[0] in ("done", "raised", "new", "start"):
+            return (st[0],)
+        out = [st[0], st[1] if st[0] != "line" else st[2]]
+        f = self.frames.get(tid)
+        while f is not None and f.f_code is not Scheduler._body.__code__:
+            if f.f_code.co_filename != __file__:
+                loc = f.f_locals
+                out.append((f.f_code.co_name, f.f_lasti, tuple((k, _plain(loc[k])) for k in sorted(loc))))
+            f = f.f_back
+        return tuple(out)
+
     def errors(self):
         return dict((t, self.state[t][1]) for t in self.order if self.state[t][0] == "raised")
 
@@ -312,6 +330,14 @@ class Scheduler:
                     self._wait_main(tid)
                 except SchedulerHang:
                     pass
+
+
+def _plain(v):
+    if v is None or type(v) in (int, bool, float, str, bytes):
+        return v
+    if type(v) is tuple:
+        return tuple(_plain(x) for x in v)
+    return "<%s>" % type(v).__name__
 
 
 class SchedLock:
@@ -471,7 +497,7 @@ def independent(a, b):
     return True
 
 
-def dfs(new_run, access=None, preemption_bound=None, max_runs=None, max_steps=100000):
+def dfs(new_run, access=None, preemption_bound=None, max_runs=None, max_steps=100000, state_key=None):
     """Enumerate schedules depth-first (stateless: every schedule is a fresh execution that replays the
     recorded prefix).  `new_run()` builds a fresh system and returns an object with a `.sched` attribute
     (threads spawned, nothing stepped).  Yields `(run, result)` after each execution; the caller closes
@@ -485,9 +511,17 @@ def dfs(new_run, access=None, preemption_bound=None, max_runs=None, max_steps=10
     executions that differ only in the order of independent steps exactly one is completed.
     preemption_bound: explore only schedules with at most that many switches away from a thread that could
     have continued (a heuristic subset when combined with sleep sets).
+
+    state_key(run) -> hashable description of the COMPLETE current state of the system under test (use
+    `Scheduler.signature` for the threads and describe the shared objects yourself).  When given, the search
+    is stateful instead: an execution is cut (`pruned`) as soon as it reaches a state that was reached
+    before, so every reachable state is expanded once and every transition out of it is executed at least
+    once — but not every path; sleep sets are not used in this mode (steps touching nothing shared are
+    still not branched on).
     """
     stack = []          # frames: dict(en, opts, idx, sleep, last, preempt, forced)
     runs = 0
+    visited = set()
     while True:
         run = new_run()
         sched = run.sched
@@ -500,6 +534,12 @@ def dfs(new_run, access=None, preemption_bound=None, max_runs=None, max_steps=10
                 if frame["en"] != en:
                     raise Nondeterminism("choice point %d: recorded %r, now %r" % (depth, frame["en"], en))
             else:
+                if state_key is not None:
+                    key = state_key(run)
+                    if key in visited:
+                        cur["pruned"] = True      # this state has been (or is being) expanded already
+                        return None
+                    visited.add(key)
                 acc = dict((t, access(run, t)) for t in en) if access is not None else {}
                 opts, forced = _options(en, acc, cur["sleep"], cur["last"], cur["preempt"], preemption_bound)
                 if not opts:
@@ -510,7 +550,7 @@ def dfs(new_run, access=None, preemption_bound=None, max_runs=None, max_steps=10
             tid = frame["opts"][frame["idx"]]
             if len(frame["opts"]) > 1:
                 cur["choice_points"] += 1
-            if access is not None:
+            if access is not None and state_key is None:
                 asleep = set(frame["sleep"]) | set(frame["opts"][:frame["idx"]])
                 a = frame["acc"].get(tid)
                 cur["sleep"] = frozenset(u for u in asleep if u != tid and u in frame["acc"]
